@@ -21,6 +21,7 @@ import (
 	"os"
 	"path/filepath"
 	"strconv"
+	"sync"
 	"testing"
 	"time"
 )
@@ -205,6 +206,32 @@ func TestVerifC10(t *testing.T) {
 				}
 				o["lb"] = lbs
 				o["served"] = served
+				if vBool(c["concurrent"]) {
+					// the same requests decided by 8 goroutines at once, 25 times each: the decision is a function of the
+					// cookie value - every concurrent decision must be the one just made for that value sequentially
+					mism := 0
+					var mu sync.Mutex
+					var wg sync.WaitGroup
+					for g := 0; g < 8; g++ {
+						wg.Add(1)
+						go func(g int) {
+							defer wg.Done()
+							for rep := 0; rep < 25; rep++ {
+								for k := range reqs {
+									j := (k + g*3 + rep) % len(reqs)
+									if vC10Pick(svc, reqs[j]) != lbs[j] {
+										mu.Lock()
+										mism++
+										mu.Unlock()
+									}
+								}
+							}
+						}(g)
+					}
+					wg.Wait()
+					o["concurrent_decisions"] = 8 * 25 * len(reqs)
+					o["concurrent_mismatches"] = mism
+				}
 				per = append(per, o)
 			}
 			res["per"] = per
